@@ -250,14 +250,31 @@ class HttpBase(ServerBase):
         self.max_content_length = max_content_length
         self.block_length = block_length
 
-        self._http_patterns = set()
+        self._http_patterns = []
+
+        # what a pattern answers to => the pattern that claimed it first
+        claimed = {}
 
         for k, v in self.app.interface.service_method_map.items():
             # p_ stands for primary, ie the non-aux method
             p_method_descriptor = v[0]
             for patt in p_method_descriptor.patterns:
-                if isinstance(patt, HttpPattern):
-                    self._http_patterns.add(patt)
+                if not isinstance(patt, HttpPattern):
+                    continue
+
+                if any(patt is p for p in self._http_patterns):
+                    continue
+
+                address = patt.address
+                if address is None:
+                    address = (patt.endpoint.name,)
+
+                other = claimed.setdefault((patt.verb, patt.host, address), patt)
+                if other.endpoint is not patt.endpoint:
+                    raise ValueError("%r and %r answer to the same requests"
+                                                                % (other, patt))
+
+                self._http_patterns.append(patt)
 
         # this makes sure similar addresses with patterns are evaluated after
         # addresses with wildcards, which puts the more specific addresses to
